@@ -72,6 +72,8 @@ class OpRunner(object):
         if isdirlike:
             opts += ['slash1', 'slash2', 'slash3', 'relslash']
         sp = spelling or self.rnd.choice(opts)
+        if sp not in opts:
+            sp = 'abs'          # a trailing-slash spelling was asked for something that is not directory-like
         if sp == 'abs':
             return pb, self.neutral_cwd(), sp
         if sp == 'rel':
